@@ -35,7 +35,9 @@ SS = 0.324              # arc seconds per cc (centesimal second)
 
 UTF8 = {"utf8-2": ["Žižkov", "Ölberg", "ñandú", "ÅÄÖ", "Šárka", "Δθ", "Ђорђе", "Łódź"],
         "utf8-3": ["点A", "測量点", "€uro", "→x", "กข", "あい", "한글", "ḃ"],
-        "utf8-4": ["😀", "𝛑r", "𐍈x", "🛰sat", "𠀋", "a😀b", "𝔸", "🧭"]}
+        "utf8-4": ["😀", "𝛑r", "𐍈x", "🛰sat", "𠀋", "a😀b", "𝔸", "🧭"],
+        # representable in ISO-8859-2 and cp-1250: exercises the recoding of ids in the text output
+        "latin2": ["Žižkov", "Ölberg", "Šárka", "Łódź", "Příbram", "Győr", "Čadca", "Úvaly"]}
 NUMLIKE = ["42", "007", "1e5", "3.14", "-1", "+7", "0", "00", "1.", "0x1F", ".5", "12345678901234567890", "1e", "7-7"]
 CASEIDS = ["abc", "ABC", "Abc", "aBc", "abC", "ABc", "aBC", "AbC"]
 
@@ -142,6 +144,9 @@ def gen_case(seed, i):
         hcls = CLASSES_EXT[int(rng.integers(0, len(CLASSES_EXT)))]
     else:
         hcls = CLASSES_DESC[int(rng.integers(0, len(CLASSES_DESC)))]
+    forced = (i % 16 == 15)          # ids, words and encodings that fit together: the byte-level oracle applies
+    if forced:
+        place, hcls = "id", "latin2"
     benign = ["plain", "utf8-2", "utf8-3", "case", "numeric", "blanks"]
     ids = list(net.points)
     idcls = hcls if place == "id" else benign[int(rng.integers(0, len(benign)))]
@@ -155,6 +160,8 @@ def gen_case(seed, i):
     fr = netgen.Frame(axes=axes, angles=angles, idmap=idmap)
     # extern values
     extcls = hcls if place == "extern" else ("plain" if rng.uniform() < 0.5 else "utf8-2")
+    if forced:
+        extcls = "plain"
     nobs = sum(len(c.obs) for c in net.clusters) + len(net.clusters)
     exts = hostile_strings(rng, extcls, max(nobs, 1), "extern")
     k = 0
@@ -190,6 +197,9 @@ def gen_case(seed, i):
     alg = str(rng.choice(["envelope", "envelope", "gso", "svd", "cholesky"]))
     lang = LANGS[(i + seed) % len(LANGS)]
     encs = [ENCS[(i // len(LANGS) + seed + j) % len(ENCS)] for j in (0, 2)]
+    if forced:
+        lang = ("cz", "hu", "en", "du")[(i // 16 + seed) % 4]
+        encs = ["iso-8859-2", "cp-1250"] if (i // 16) % 2 == 0 else ["cp-1250", "iso-8859-2-flat"]
     return dict(index=i, net=net, netb=netb, frame=fr, feats=feats, place=place, hcls=hcls, idcls=idcls, extcls=extcls,
                 desccls=desccls, band=band, ndim=ndim, angular=angular, alg=alg, lang=lang, encs=encs, desc=desc)
 
@@ -309,7 +319,7 @@ def scrape_text(text, R):
         for l in secs[k]:
             t = l.split()
             if t and set(l.strip()) != {"="} and trailing_numeric(t) >= 1:
-                S["fixed"].append(t)
+                S["fixed"].append(t[-trailing_numeric(t):])       # numbers only: the id is a word
         k += 1
     has_xy = any("x" in {c.lower() for c in v} for v in R["adjusted"].values())
     S["coords"] = {}
